@@ -68,8 +68,11 @@ theorem chunkLoop_slice_no_panic (sz cl : Nat) :
       · simp only [hn, if_false]
         exact ih _ _ _
 
-theorem runBulk_slice_no_panic (sz c : Nat) (s : Bytes) : (runBulk sliceInput sz c s).1 ≠ .panic := by
+theorem runBulk_slice_no_panic (sz c : Nat) (hsz : sz ≤ maxPrealloc) (s : Bytes) :
+    (runBulk sliceInput sz c s).1 ≠ .panic := by
   unfold runBulk
+  have hg : ¬ sz > maxPrealloc := by omega
+  simp only [hg, if_false]
   by_cases h1 : c * sz > usizeMax
   · simp [h1]
   · have hrl : sliceInput.remainingLen s = (.ok (some s.length), s) := rfl
@@ -79,10 +82,11 @@ theorem runBulk_slice_no_panic (sz c : Nat) (s : Bytes) : (runBulk sliceInput sz
     · simp only [h2, if_false]
       exact chunkLoop_slice_no_panic _ _ _ _ _ _
 
-theorem noPanic_bulk {α} {sz c : Nat} {k : Bytes → Prog α} (hk : ∀ b, NoPanic (k b)) : NoPanic (.bulk sz c k) := by
+theorem noPanic_bulk {α} {sz c : Nat} {k : Bytes → Prog α} (hsz : sz ≤ maxPrealloc)
+    (hk : ∀ b, NoPanic (k b)) : NoPanic (.bulk sz c k) := by
   intro s
   simp only [run]
-  have := runBulk_slice_no_panic sz c s
+  have := runBulk_slice_no_panic sz c hsz s
   cases hr : runBulk sliceInput sz c s with
   | mk r s1 =>
     rw [hr] at this
@@ -96,7 +100,7 @@ theorem noPanic_rawBytes {α} {n : Nat} {k : Bytes → Prog α} (hk : ∀ b, NoP
   simp only [run]
   have e : runRawBytes sliceInput n s = runBulk sliceInput 1 n s := rfl
   rw [e]
-  have := runBulk_slice_no_panic 1 n s
+  have := runBulk_slice_no_panic 1 n (by decide) s
   cases hr : runBulk sliceInput 1 n s with
   | mk r s1 =>
     rw [hr] at this
@@ -134,7 +138,7 @@ theorem noPanic_decodeVecWithLen {sz : Nat} {t : Ty} {item : Prog Val} (hp : NoP
     NoPanic (decodeVecWithLen sz t item len) := by
   unfold decodeVecWithLen
   split
-  · exact noPanic_bulk (fun _ => noPanic_pure _)
+  · next p => exact noPanic_bulk (by cases p <;> decide) (fun _ => noPanic_pure _)
   · exact noPanic_descend (noPanic_bind (noPanic_itemChunks hp _ _) (fun _ => noPanic_ascend (noPanic_pure _)))
 
 theorem chunksOf_length (size : Nat) : ∀ (n : Nat) (bs : Bytes), (chunksOf size n bs).length = n
@@ -213,7 +217,7 @@ theorem decodeP_noPanic : ∀ (ty : Ty), widthsOk ty = true → NoPanic (decodeP
   | .str, _ => by
     simp only [decodeP]
     exact noPanic_bind noPanic_compactDec4
-      (fun _ => noPanic_bulk (fun _ => noPanic_ite (noPanic_pure _) noPanic_fail))
+      (fun _ => noPanic_bulk (by decide) (fun _ => noPanic_ite (noPanic_pure _) noPanic_fail))
   | .bytes, _ => by
     simp only [decodeP]
     exact noPanic_bind noPanic_compactDec4 (fun _ => noPanic_rawBytes (fun _ => noPanic_pure _))
@@ -233,7 +237,7 @@ theorem decodeP_noPanic : ∀ (ty : Ty), widthsOk ty = true → NoPanic (decodeP
     apply noPanic_bind noPanic_compactDec4
     intro bits
     apply noPanic_ite noPanic_fail
-    apply noPanic_bulk
+    apply noPanic_bulk (by cases store <;> decide)
     intro bs
     -- the assert `bits <= result.len()` always holds: `elts * w >= bits`
     have hlen : ((chunksOf store.size (elts (8 * store.size) bits) bs).map
